@@ -310,7 +310,23 @@ func runC19(k *kernel.K) {
 		}
 		return sb.String()
 	}
-	for k.Step() {
+	// Sometimes the application closes the stream while bodies are still being read through their
+	// wrappers: what was logged until then stays a valid log, and the reads go on returning what the
+	// underlying bodies return.
+	closeAt, closedEarly := -1, false
+	if w.Chance(1, 8) {
+		closeAt = w.Draw(12)
+	}
+	for n := 0; ; n++ {
+		if n == closeAt {
+			closedEarly = true
+			k.Probe("stream_closed_while_bodies_open")
+			go stream.Close()
+			k.Settle()
+		}
+		if !k.Step() {
+			break
+		}
 	}
 	k.Settle()
 	if k.Inconclusive != "" {
@@ -318,7 +334,9 @@ func runC19(k *kernel.K) {
 		k.Settle()
 		return
 	}
-	stream.Close()
+	if !closedEarly {
+		stream.Close()
+	}
 	k.Settle()
 	raw := sink.Bytes()
 	// ---- oracle, part 1 ----
@@ -375,6 +393,32 @@ func runC19(k *kernel.K) {
 			} else {
 				data = append(data, f)
 			}
+		}
+		mu.Lock()
+		done := m.done
+		mu.Unlock()
+		if !done {
+			k.Fail("C19.wrapper_transparent", map[string]string{"stream_closed_early": fmt.Sprint(closedEarly)}, "%s: the consumer's read through the logging wrapper (or the call that logs the message) has not returned at quiescence; the underlying body never blocks", desc)
+			continue
+		}
+		if closedEarly {
+			// the log ends where the stream was closed: the data frames are a prefix of what the
+			// consumer read, with contiguous indices
+			var cat []byte
+			for i, f := range data {
+				if int(f.Index) != i {
+					k.Fail("C19.data_indices", nil, "%s: data frame %d carries index %d", desc, i, f.Index)
+					break
+				}
+				cat = append(cat, f.Data...)
+			}
+			if !bytes.HasPrefix(m.got, cat) {
+				k.Fail("C19.data_bytes", nil, "%s: the stream was closed early; the %d bytes of the data frames are not a prefix of the %d bytes the consumer read", desc, len(cat), len(m.got))
+			}
+			if fmt.Sprint(m.log) != fmt.Sprint(m.under.log) {
+				k.Fail("C19.wrapper_transparent", map[string]string{"stream_closed_early": "true"}, "%s: reads through the logging wrapper returned %v, the underlying body returned %v", desc, clip(m.log), clip(m.under.log))
+			}
+			continue
 		}
 		// headers: same multiset as the message
 		var want []string
